@@ -541,3 +541,50 @@ mod tests {
         // assert!(vec.contains(&[9; 32]));
     }
 }
+
+/// Verification accessors (compiled only with `--cfg saito_verif`): the scheduler's state is
+/// private, the harness needs to drive `build_peer_block_picture` and to observe the queues.
+#[cfg(saito_verif)]
+impl BlockchainSyncState {
+    pub fn verif_build_peer_block_picture(&mut self, blockchain: &Blockchain) {
+        self.build_peer_block_picture(blockchain)
+    }
+    /// per peer: (block id, hash, status 0=queued 1=fetching 2=fetched 3=failed, retry count)
+    pub fn verif_queues(&self) -> Vec<(PeerIndex, Vec<(BlockId, SaitoHash, u8, u32)>)> {
+        let mut v: Vec<(PeerIndex, Vec<(BlockId, SaitoHash, u8, u32)>)> = self
+            .blocks_to_fetch
+            .iter()
+            .map(|(p, deq)| {
+                (
+                    *p,
+                    deq.iter()
+                        .map(|b| {
+                            let st = match b.status {
+                                BlockStatus::Queued => 0,
+                                BlockStatus::Fetching => 1,
+                                BlockStatus::Fetched => 2,
+                                BlockStatus::Failed => 3,
+                            };
+                            (b.block_id, b.block_hash, st, b.retry_count)
+                        })
+                        .collect(),
+                )
+            })
+            .collect();
+        v.sort_by_key(|(p, _)| *p);
+        v
+    }
+    /// per peer: announcements not yet turned into queue entries
+    pub fn verif_pending(&self) -> Vec<(PeerIndex, Vec<(BlockId, SaitoHash)>)> {
+        let mut v: Vec<(PeerIndex, Vec<(BlockId, SaitoHash)>)> = self
+            .received_block_picture
+            .iter()
+            .map(|(p, deq)| (*p, deq.iter().cloned().collect()))
+            .collect();
+        v.sort_by_key(|(p, _)| *p);
+        v
+    }
+    pub fn verif_max_retries() -> u32 {
+        MAX_RETRIES_PER_BLOCK
+    }
+}
